@@ -71,6 +71,11 @@ CHECKS["C17"] = ("exploration",
          "4.C17", "generated grammars with probe commands x generated command lines (seeded proptest choice streams) x reference-interpreter oracle + invocation-log oracle against bash execution",
          "trusted: reference interpreter, probe function and driver; the region of the known finding 'word skipped before a command' is classified and counted, truncated words (C01's other known finding) are avoided and counted; ~600 completions per quick run")
 
+CHECKS["C09"] = ("exploration",
+         "Generated grammars outside C01's restriction on purpose (one literal in several || branches / call variants, the same within-word expression twice, permuted alternatives, twin words): exact predicate on complgen's raw and minimised automata (no state with two outgoing items that accept a common word and differ in target; within-word automata compared as word languages), and metamorphic execution in bash of the grammar against its variant with every || replaced by | (subset, same emptiness, equality with the reference interpreter).",
+         "4.C09", "generated grammars with deliberately overlapping expectations (seeded proptest choice streams) x exact automaton predicate + metamorphic (|| -> |) oracle executed in bash",
+         "trusted: automata library (label-erased canonical forms), reference interpreter; known finding F-permuted-twin-words is classified by its signature (two different within-word automata with equal word languages at one state) and has a witness")
+
 NOT_YET = {
 }
 
